@@ -15,7 +15,10 @@ simple selectors to a compound"):
  (iii) SelectorSet::is_superselector: for all members of `other` there is a member of `self` that is
        its superselector (so a list covers each of its members);
  (iv)  Pseudo::is_superselector compares arguments in the same direction except for `:not`, whose
-       arguments are compared reversed.
+       arguments are compared reversed;
+ (v)   Pseudo::is_superselector answers the constant `false` only on a path guarded by a test that
+       `self` and the other pseudo differ (`self.F != b.F`): any other constant `false` is a pseudo that
+       is not a superselector of itself (necessary for reflexivity).
 """
 from lib import ast as A
 
@@ -149,3 +152,77 @@ def run(ctx, F):
         ctx.ok("F5-pseudo-direction", "Pseudo::is_superselector: :not reversed, others forward", None)
     else:
         ctx.fail("F5-pseudo-direction", "Pseudo::is_superselector: :not reversed, others forward", f"argument comparisons: {fwd} forward, {rev} reversed, `:not` arm reversed: {not_rev}; `:not(a)` covers `:not(b)` exactly when b covers a, every other pseudo compares arguments forward", where=ps_["path"])
+
+    # ---------------------------------------------------------------- (v) pseudo reflexivity: no unconditional `false`
+    import re as _re
+
+    def differs_test(cond):
+        def disj(c):
+            c = unblock(c)
+            if c.get("e") == "bin" and c["op"] == "||":
+                return disj(c["l"]) + disj(c["r"])
+            return [c]
+        for d in disj(cond):
+            if not (d.get("e") == "bin" and d["op"] == "!="):
+                return False
+            l, r = A.show(d["l"]).replace(" ", ""), A.show(d["r"]).replace(" ", "")
+            sw = lambda t: _re.sub(r"\bself\b", oname, t)
+            if not (sw(l) == r or sw(r) == l):
+                return False
+        return True
+
+    def rets(n, guards):
+        if isinstance(n, list):
+            for x in n:
+                yield from rets(x, guards)
+            return
+        if not isinstance(n, dict):
+            return
+        if n.get("e") == "closure":
+            return
+        if n.get("e") == "if":
+            yield from rets(n["cond"], guards)
+            yield from rets(n["then"], guards + [(n["cond"], True)])
+            yield from rets(n.get("else"), guards + [(n["cond"], False)])
+            return
+        if n.get("e") == "ret":
+            yield (n.get("x"), guards)
+            return
+        for v in n.values():
+            if isinstance(v, (dict, list)):
+                yield from rets(v, guards)
+
+    def tails(n, guards):
+        if not isinstance(n, dict):
+            return
+        n2 = A.strip(n)
+        if n2.get("e") == "block":
+            st = n2["stmts"]
+            if st and st[-1].get("s") == "expr" and not st[-1].get("semi"):
+                yield from tails(st[-1]["x"], guards)
+            return
+        if n2.get("e") == "if":
+            yield from tails(n2["then"], guards + [(n2["cond"], True)])
+            yield from tails(n2.get("else"), guards + [(n2["cond"], False)])
+            return
+        if n2.get("e") == "match":
+            for arm in n2["arms"]:
+                yield from tails(arm["body"], guards + [(None, None)])
+            return
+        yield (n2, guards)
+
+    n_leaves = 0
+    bad = []
+    for leaf, guards in list(rets(ps_["body"], [])) + list(tails(ps_["body"], [])):
+        n_leaves += 1
+        lf = A.strip(leaf) if isinstance(leaf, dict) else None
+        if lf is not None and lf.get("e") == "lit" and lf.get("t") == "bool" and lf.get("v") is False:
+            if not any(br is True and c is not None and differs_test(c) for c, br in guards):
+                bad.append(len(guards))
+    ctx.floor("result expressions of Pseudo::is_superselector", n_leaves, 3)
+    if bad:
+        ctx.fail("F5-pseudo-reflexive", "Pseudo::is_superselector: `false` only where self and the other differ",
+                 f"{len(bad)} result(s) of Pseudo::is_superselector are the constant `false` on a path that is not guarded by a test that `self` and `{oname}` differ (such as `self.name != {oname}.name`): "
+                 "a pseudo selector reaching that path is not a superselector of itself, so is-superselector is not reflexive", where=ps_["path"])
+    else:
+        ctx.ok("F5-pseudo-reflexive", "Pseudo::is_superselector: `false` only where self and the other differ", None)
